@@ -77,7 +77,7 @@ def classify(diag, gen, unit):
         elif 'at this exit' in lab or 'at this loop exit' in lab or 'at this call' in lab:
             site_sp = sp
     if site_sp is None:
-        cand = [sp for sp in spans if sp is not clause_sp]
+        cand = [sp for sp in spans if sp is not clause_sp and os.path.basename(sp.get('file_name') or '').startswith(unit)]
         site_sp = (cand[0] if cand else (primary[0] if primary else None))
     if site_sp is None and clause_sp is not None:
         site_sp = clause_sp
@@ -93,7 +93,14 @@ def classify(diag, gen, unit):
     }.get(kind, re.sub(r'[^a-z]+', '-', kind.lower()).strip('-'))
     name = '%s::%s::%s' % (unit, fn_site.get('fn', '?'), kind_short)
     clause_txt = None
-    if clause_sp is not None:
+    unit_file = unit + '.rs'
+    def own(sp):
+        fn = os.path.basename(sp.get('file_name') or '')
+        return fn in (unit_file, unit + '_canary.rs')
+    if clause_sp is not None and not own(clause_sp):
+        clause_txt = norm(' '.join(t.get('text', '') for t in clause_sp.get('text', []))) or None
+        name += '@vstd:%s:%s' % (clause_sp.get('file_name'), clause_sp.get('line_start'))
+    elif clause_sp is not None:
         cd = describe_line(gen, clause_sp.get('line_start'))
         clause_txt = norm(' '.join(t.get('text', '') for t in clause_sp.get('text', [])))
         if cd.get('k') in ('spec', 'inv'):
